@@ -47,6 +47,13 @@ CHECKS = {
             "stub": ["file system under /sim (in-memory, POSIX path normalisation, PATH_MAX/NAME_MAX)", "realpath()", "realloc placement", "DString starting capacity (H1)", "stdio read chunk size"],
             "expect_probes": ["guard_hit", "depth_ge_3", "insert_caused_realloc_move", "open_fail", "read_error", "file_changed_between_opens", "directory_in_place_of_file"],
             "sim_time": "not meaningful: no clock on these paths; liveness is counted in fopen calls, delivered bytes and executed basic blocks"},
+    "C17": {"engine": "thr", "variants": ["T"], "quick": 1500, "thorough": 60000, "quick_s": 80, "thorough_s": 570,
+            "real": ["the whole library compiled with -fsanitize=thread instrumentation and DISABLE_OBJECT_POOL, in libmmd_t.so", "real pthreads, real glibc malloc (per-thread arenas)"],
+            "stub": ["thread scheduling (seeded cooperative scheduler: exactly one thread runs, baton passed at yield points)", "the TSan runtime (replaced by the simulator's own callbacks and happens-before detector)",
+                     "rand()/srand()/time()/clock() (simulated, yield points)", "localtime() (passes through; its static buffer is recorded as shared state)"],
+            "expect_probes": ["preemptions", "yield_points", "preempt_in_html_export", "preempt_in_zip"],
+            "state_measure": "distinct schedule hashes: FNV over the sequence (thread chosen, code site) at every hand-over",
+            "sim_time": "not meaningful: the clock is constant during a run; schedules are counted in yield points"},
 }
 
 DEFAULT_SEED = {"quick": 20261001, "thorough": 20261002}
